@@ -2,6 +2,7 @@ INIT Init
 NEXT Next
 INVARIANT OrderIndependent
 CONSTANTS
+ SkipMatched = TRUE
  Recheck = TRUE
  Emit = FALSE
 CHECK_DEADLOCK FALSE
